@@ -3,6 +3,7 @@ package integrationdiagram
 import (
 	"errors"
 	"fmt"
+	"sort"
 	"strings"
 
 	"github.com/anz-bank/sysl/pkg/mermaid"
@@ -35,14 +36,37 @@ func generateFullIntegrationDiagramHelper(m *sysl.Module,
 	integrationPairs *[]integrationPair) (string, error) {
 	var result string
 	result = mermaid.GeneratedHeader + "graph TD\n"
-	for appName, appValue := range m.Apps {
-		endPoints := appValue.Endpoints
-		for _, endPoint := range endPoints {
+	for _, appName := range sortedAppNames(m) {
+		for _, endPoint := range sortedEndpoints(m.Apps[appName]) {
 			statements := endPoint.Stmt
 			result += printIntegrationDiagramStatements(m, statements, appName, integrationPairs)
 		}
 	}
 	return result, nil
+}
+
+// sortedAppNames and sortedEndpoints fix the walk order of the model's maps, so that the same
+// model always gives the same diagram text.
+func sortedAppNames(m *sysl.Module) []string {
+	names := make([]string, 0, len(m.Apps))
+	for name := range m.Apps {
+		names = append(names, name)
+	}
+	sort.Strings(names)
+	return names
+}
+
+func sortedEndpoints(app *sysl.Application) []*sysl.Endpoint {
+	names := make([]string, 0, len(app.GetEndpoints()))
+	for name := range app.GetEndpoints() {
+		names = append(names, name)
+	}
+	sort.Strings(names)
+	eps := make([]*sysl.Endpoint, 0, len(names))
+	for _, name := range names {
+		eps = append(eps, app.GetEndpoints()[name])
+	}
+	return eps
 }
 
 // generateIntegrationDiagramHelper accepts an application name and returns the respective integration diagram
@@ -55,9 +79,8 @@ func generateIntegrationDiagramHelper(m *sysl.Module, appName string,
 			return "", err
 		}
 	}
-	endPoints := m.Apps[appName].Endpoints
 	// For every endpoint, the statements are retrieved and we pass it to the printer to print appropriate mermaid code
-	for _, endPoint := range endPoints {
+	for _, endPoint := range sortedEndpoints(m.Apps[appName]) {
 		statements := endPoint.Stmt
 		result += printIntegrationDiagramStatements(m, statements, appName, integrationPairs)
 	}
@@ -70,9 +93,8 @@ func generateMultipleAppIntegrationDiagramHelper(m *sysl.Module, appNames []stri
 	result = mermaid.GeneratedHeader + "graph TD\n"
 	for _, appName := range appNames {
 		if app := m.Apps[appName]; app != nil {
-			endPoints := app.Endpoints
 			result += printClassStatement(appName)
-			for _, endPoint := range endPoints {
+			for _, endPoint := range sortedEndpoints(app) {
 				statements := endPoint.Stmt
 				result += printIntegrationDiagramStatements(m, statements, appName, integrationPairs)
 			}
@@ -80,9 +102,8 @@ func generateMultipleAppIntegrationDiagramHelper(m *sysl.Module, appNames []stri
 	}
 
 	// Get all applications which call an App in appNames
-	for currentApp, appValue := range m.Apps {
-		endPoints := appValue.Endpoints
-		for _, endPoint := range endPoints {
+	for _, currentApp := range sortedAppNames(m) {
+		for _, endPoint := range sortedEndpoints(m.Apps[currentApp]) {
 			for _, targetApp := range appNames {
 				result += printIntegrationDiagramStatementsTargetedApp(m, endPoint.Stmt, currentApp, integrationPairs, targetApp)
 			}
